@@ -24,7 +24,10 @@ def gen(rng, index, tier):
         sch = common.family_scheme(rng, rng.choice(["unifying", "unifying", "near", "unifying_half", "pseudo"]))
     else:
         sch = lib.gen_scheme(rng)
-    return {"dataset": raw, "scheme": sch, "amo": rng.random() < 0.5, "meta": meta}
+    case = {"dataset": raw, "scheme": sch, "amo": rng.random() < 0.5, "meta": meta}
+    if rng.random() < 0.12:
+        case["past"] = common.gen_past(rng, raw)
+    return case
 
 
 def impl(case):
@@ -32,6 +35,14 @@ def impl(case):
     from corankco.consensus import ConsensusFeature
     try:
         ds, sch, coder, obs, s = common.prep(case)
+        if case.get("past"):
+            def warm():
+                try:
+                    PickAPerm().compute_consensus_rankings(ds, sch, case["amo"])
+                except InompleteRankingsIncompatibleWithScoringSchemeException:
+                    pass
+            common.apply_past(ds, sch, case["past"], extra_query=warm)
+            obs = lib.observe_dataset(ds, coder)
         try:
             cons = PickAPerm().compute_consensus_rankings(ds, sch, case["amo"])
         except InompleteRankingsIncompatibleWithScoringSchemeException:
